@@ -182,7 +182,7 @@ impl Check for C19 {
         Some("every *.e57 file under /repo/testdata (unreadable or rule-breaking ones are counted as out of domain)".into())
     }
     fn gen(s: &mut Src, _t: Tier) -> Case {
-        let o = GenOpts { density: 3, max_ops: 3, max_values: 8000, blobs: false, ..GenOpts::default() };
+        let o = GenOpts { density: 3, max_ops: 3, max_values: 8000, blobs: false, compact_chance: (1, 50), ..GenOpts::default() };
         if s.flag() {
             let mut scene = scene_spec(s, &o);
             for op in &mut scene.ops {
